@@ -16,7 +16,7 @@ From Coq Require Import Ascii String List NArith.
 Import ListNotations.
 Require Import Laze.model.Base Laze.model.Env Laze.model.Allow Laze.model.Ninja Laze.model.Ctx
         Laze.model.Resolver Laze.model.Imports Laze.model.Generate Laze.model.Checks
-        Laze.model.Path Laze.proofs.StmtFacts Laze.proofs.GenerateFacts Laze.proofs.WfFacts Laze.proofs.OutTargets Laze.proofs.RuleOnce.
+        Laze.model.Path Laze.proofs.StmtFacts Laze.proofs.GenerateFacts Laze.proofs.WfFacts Laze.proofs.OutTargets Laze.proofs.RuleOnce Laze.proofs.EscapeFacts.
 Open Scope list_scope.
 
 Theorem C06_file_shape_partial : forall H EV b le bsel asel local part select disable cli_env g,
@@ -93,6 +93,13 @@ Print Assumptions C06_rule_defined_once.
    but not hashed would break it — `always` is hashed since 26f0f40 and is not printed in the rule block *)
 Example C06_named_name : forall H r, nr_name (named H r) = nr_name r ++ S_ "_" ++ show_dec (rule_hash H r).
 Proof. reflexivity. Qed.
+
+(* the path lists of build statements: a path containing blanks or colons is written escaped (fix 20ce961),
+   and ninja's path reader gives the path back and stops at the separator that follows *)
+Theorem C06_paths_read_back : forall p rest,
+  forallb plain_char p = true -> at_sep rest -> read_path (escape_path p ++ rest) = (p, rest).
+Proof. exact escape_read_back. Qed.
+Print Assumptions C06_paths_read_back.
 
 (* non-vacuity of the checker: a two-statement file with its rule first is accepted, the same
    file with the rule after its use, or with one output twice, is rejected *)
